@@ -276,6 +276,33 @@ func raceTLS() {
 			}
 		}()
 	}
+	// connections that are accepted but whose TLS handshake has not finished when Shutdown comes (the client is slow, or just
+	// a port scanner): registration of a session must be ordered before Shutdown's Wait whatever the peer does
+	for i := 0; i < 6; i++ {
+		srv2 := &kmip.Server{TLSConfig: scfg, Log: log.New(io.Discard, "", 0), ReadTimeout: 200 * time.Millisecond, WriteTimeout: 200 * time.Millisecond}
+		l2, err := tlsListen(scfg)
+		if err != nil {
+			break
+		}
+		init2 := make(chan struct{})
+		served2 := make(chan error, 1)
+		go func() { served2 <- srv2.Serve(l2, init2) }()
+		<-init2
+		var raws []net.Conn
+		for k := 0; k < 3; k++ {
+			if raw, err := net.DialTimeout("tcp", l2.Addr().String(), time.Second); err == nil {
+				raws = append(raws, raw)
+			}
+		}
+		time.Sleep(time.Duration(i) * 300 * time.Microsecond)
+		ctx2, cancel2 := contextWithTimeout(2 * time.Second)
+		srv2.Shutdown(ctx2)
+		cancel2()
+		for _, raw := range raws {
+			raw.Close()
+		}
+		<-served2
+	}
 	// independent Clients that share ONE *tls.Config (a tls.Config may be shared: neither crypto/tls nor a library built
 	// on it writes to it), host name left to be derived from the endpoint, by name and by address
 	shared := &tls.Config{RootCAs: p.pool}
